@@ -170,6 +170,61 @@ Proof.
   apply with_rest_ok; [lia|]. intros r Hr. apply Hf. lia.
 Qed.
 
+Lemma one_arg_function_ok : forall f,
+  (forall v, ok b (f v)) -> forall args, ok b (one_arg_function f args).
+Proof. intros f Hf. apply num_args_ok. intros args Hl. apply with_arg_ok; [lia|]. apply Hf. Qed.
+
+Lemma two_arg_function_ok : forall f,
+  (forall x y, ok b (f x y)) -> forall args, ok b (two_arg_function f args).
+Proof.
+  intros f Hf. apply num_args_ok. intros args Hl.
+  apply with_arg_ok; [lia|]. intros v0. apply with_arg_ok; [lia|]. intros v1. apply Hf.
+Qed.
+
+Lemma three_arg_function_ok : forall f,
+  (forall x y z, ok b (f x y z)) -> forall args, ok b (three_arg_function f args).
+Proof.
+  intros f Hf. apply num_args_ok. intros args Hl.
+  apply with_arg_ok; [lia|]. intros v0. apply with_arg_ok; [lia|]. intros v1.
+  apply with_arg_ok; [lia|]. intros v2. apply Hf.
+Qed.
+
+Lemma one_text_function_ok : forall f,
+  (forall t, ok b (f t)) -> forall args, ok b (one_text_function f args).
+Proof.
+  intros f Hf. apply num_args_ok. intros args Hl.
+  apply with_arg_ok; [lia|]. intros v. destruct (to_text v); [apply Hf|exact I].
+Qed.
+
+Lemma two_text_function_ok : forall f,
+  (forall x y, ok b (f x y)) -> forall args, ok b (two_text_function f args).
+Proof.
+  intros f Hf. apply num_args_ok. intros args Hl.
+  apply with_arg_ok; [lia|]. intros v. destruct (to_text v); [|exact I].
+  apply with_arg_ok; [lia|]. intros v'. destruct (to_text v'); [apply Hf|exact I].
+Qed.
+
+Lemma one_array_function_ok : forall f,
+  (forall items, ok b (f items)) -> forall args, ok b (one_array_function f args).
+Proof.
+  intros f Hf. apply num_args_ok. intros args Hl.
+  apply with_arg_ok; [lia|]. intros v. destruct (to_array v); [apply Hf|exact I].
+Qed.
+
+Lemma two_array_function_ok : forall f,
+  (forall x y, ok b (f x y)) -> forall args, ok b (two_array_function f args).
+Proof.
+  intros f Hf. apply num_args_ok. intros args Hl.
+  apply with_arg_ok; [lia|]. intros v. destruct (to_array v); [|exact I].
+  apply with_arg_ok; [lia|]. intros v'. destruct (to_array v'); [apply Hf|exact I].
+Qed.
+
+Lemma and_fn_ok : forall vs, ok b (and_fn vs).
+Proof. induction vs as [|v r IH]; simpl; [exact I|]. destruct (to_bool v) as [[]|]; [apply IH|exact I|exact I]. Qed.
+
+Lemma or_fn_ok : forall vs, ok b (or_fn vs).
+Proof. induction vs as [|v r IH]; simpl; [exact I|]. destruct (to_bool v) as [[]|]; [exact I|apply IH|exact I]. Qed.
+
 Lemma one_number_function_ok : forall f,
   (forall d, ok b (f d)) -> forall args, ok b (one_number_function f args).
 Proof.
@@ -464,7 +519,7 @@ Proof. intros x y H. unfold mod_body. apply dec_eqb_zero in H. rewrite H. reflex
 
 Lemma mean_body_ok : forall args, (1 <= length args)%nat -> ok true (mean_body args).
 Proof.
-  intros args H. unfold mean_body. destruct (sum_numbers args (Dec 0 0)) as [sum|]; [|exact I].
+  intros args H. unfold mean_body. destruct (sum_numbers args decimal_zero) as [sum|]; [|exact I].
   unfold dec_div, dec_div_round. destruct (dec_quorem sum (dec_of_Z (zlen args)) division_precision) as [c|[q r]] eqn:Eq.
   - apply dec_quorem_class in Eq. destruct Eq as [[Hc Hz]|Hc]; subst c; [|reflexivity].
     simpl in Hz. unfold zlen in Hz. lia.
@@ -522,6 +577,23 @@ Proof.
   - apply min_max_args_ok. intros a [H1 _]. apply extract_object_body_ok; lia.
   - apply initial_text_function_ok. intros; apply regex_match_body_ok; assumption.
   - apply min_max_args_ok. intros a [H1 [H2|H2]]; [lia|]. apply has_group_body_ok; lia.
+  - apply one_arg_function_ok. intros v. unfold text_fn. destruct (to_text v); exact I.
+  - apply one_arg_function_ok. intros v. unfold number_fn. destruct (to_number v); exact I.
+  - apply one_arg_function_ok. intros v. unfold boolean_fn. destruct (to_bool v); exact I.
+  - apply min_max_args_ok. intros a _. apply and_fn_ok.
+  - apply min_max_args_ok. intros a _. apply or_fn_ok.
+  - apply three_arg_function_ok. intros x y z. unfold if_fn. destruct (to_bool x); exact I.
+  - apply one_number_function_ok. intros d. exact I.
+  - apply one_arg_function_ok. intros v. unfold count_fn. destruct v; exact I.
+  - apply two_arg_function_ok. intros x y. unfold default_fn. destruct (to_text x) as [[|c t]|]; exact I.
+  - apply two_arg_function_ok. intros x y. unfold join_fn. destruct (to_array x) as [items|]; [|exact I].
+    destruct (to_text y); [|exact I]. destruct (texts_of items); exact I.
+  - apply one_array_function_ok. intros items. exact I.
+  - apply one_array_function_ok. intros items. unfold sum_body. destruct (sum_numbers items decimal_zero); exact I.
+  - apply two_array_function_ok. intros x y. exact I.
+  - apply one_arg_function_ok. intros v. exact I.
+  - apply one_text_function_ok. intros t. exact I.
+  - apply two_text_function_ok. intros x y. exact I.
 Qed.
 
 Lemma call_not_foreach : forall fuel f args, f <> FForEach -> call fuel f args = call_simple f args.
@@ -567,9 +639,63 @@ End Calls.
 (* ------------------------------------------------------------------------------------------------ *)
 (* operators, lookups, the tree evaluator *)
 
-Lemma eval_binop_ok : forall op x y, ok true (eval_binop op x y).
+Lemma dec_div_round_some : forall x y p, mant y <> 0 -> in_int32 (dexp x - dexp y + p) = true ->
+  exists q, dec_div_round x y p = inr q.
 Proof.
-  intros op x y. destruct op; simpl; unfold textual_binary, numerical_binary, cmp_is;
+  intros x y p Hy He. unfold dec_div_round, dec_quorem.
+  replace (mant y =? 0) with false by (symmetry; apply Z.eqb_neq; assumption).
+  replace (dexp x - dexp y - - p) with (dexp x - dexp y + p) by lia. rewrite He. cbn [negb].
+  destruct (dexp x - dexp y + p <? 0); cbv zeta;
+    match goal with |- context [dec_cmp ?u ?v] => destruct (dec_cmp u v) end; eauto.
+Qed.
+
+(* Decimal.Pow under the guards of operators.Exponent: the exponent limit keeps Mul and QuoRem inside int32 *)
+Lemma exponent_in_range : forall e, exponent_out_of_range e = false -> - 100000 <= e <= 100000.
+Proof.
+  intros e H. unfold exponent_out_of_range, max_number_exponent in H. apply orb_false_iff in H as [H1 H2].
+  apply Z.ltb_ge in H1. apply Z.ltb_ge in H2. lia.
+Qed.
+
+Lemma dec_pow_ok : forall fp x y, exponent_out_of_range (dexp x * dec_trunc y) = false -> ok false (dec_pow fp x y).
+Proof.
+  intros fp x y Hr. apply exponent_in_range in Hr. unfold dec_pow.
+  destruct (mant x =? 0) eqn:Ex; [exact I|]. apply Z.eqb_neq in Ex.
+  destruct (mant y =? 0); [exact I|].
+  destruct (negb (dec_is_integer y)); [destruct (mant x <? 0); exact I|].
+  assert (Habs : - 100000 <= dexp x * Z.abs (dec_trunc y) <= 100000).
+  { destruct (Z.abs_spec (dec_trunc y)) as [[_ ->]|[_ ->]]; lia. }
+  unfold dec_pow_nat.
+  replace (in_int32 (dexp x * Z.abs (dec_trunc y))) with true
+    by (symmetry; unfold in_int32, int32_min, int32_max; apply andb_true_iff; split; apply Z.leb_le; lia).
+  destruct (0 <=? dec_trunc y); [exact I|].
+  destruct (dec_div_round_some (Dec 1 0) (Dec (mant x ^ Z.abs (dec_trunc y)) (dexp x * Z.abs (dec_trunc y)))
+              pow_precision_negative_exponent) as [q ->]; [| |exact I].
+  - cbn [mant]. apply Z.pow_nonzero; [assumption|apply Z.abs_nonneg].
+  - cbn [dexp]. unfold pow_precision_negative_exponent, in_int32, int32_min, int32_max.
+    apply andb_true_iff; split; apply Z.leb_le; lia.
+Qed.
+
+Lemma pow_body_ok : forall fp x y, ok false (pow_body fp x y).
+Proof.
+  intros fp x y. unfold pow_body.
+  destruct (exponent_out_of_range (dexp x * dec_trunc y)) eqn:E; [exact I|].
+  destruct (_ && _); [exact I|]. destruct (_ && _); [exact I|]. apply dec_pow_ok. assumption.
+Qed.
+
+(* a power whose decimal exponent would leave the limit is an error VALUE (`@(0.001 ^ 999999999)` panicked) *)
+Lemma pow_out_of_range : forall fp x y n1 n2, to_number x = Ok n1 -> to_number y = Ok n2 ->
+  (dexp n1 * dec_trunc n2 < - max_number_exponent \/ max_number_exponent < dexp n1 * dec_trunc n2) ->
+  eval_binop fp OPow x y = Ret VErr.
+Proof.
+  intros fp x y n1 n2 H1 H2 Hr. simpl. unfold numerical_binary. rewrite H1, H2. unfold pow_body.
+  replace (exponent_out_of_range (dexp n1 * dec_trunc n2)) with true; [reflexivity|].
+  symmetry. unfold exponent_out_of_range. apply orb_true_iff.
+  destruct Hr; [left; apply Z.ltb_lt|right; apply Z.ltb_lt]; assumption.
+Qed.
+
+Lemma eval_binop_ok : forall fp op x y, ok true (eval_binop fp op x y).
+Proof.
+  intros fp op x y. destruct op; simpl; unfold textual_binary, numerical_binary, cmp_is;
     try (destruct (to_text x); [|exact I]; destruct (to_text y); exact I);
     (destruct (to_number x) as [n1|]; [|exact I]; destruct (to_number y) as [n2|]; [|exact I]); try exact I.
   - destruct (exponent_out_of_range _); [exact I|]. destruct (dec_mul n1 n2); [exact I|reflexivity].
@@ -578,40 +704,41 @@ Proof.
     + apply dec_quorem_class in Eq. destruct Eq as [[Hc Hz]|Hc]; subst c; [|reflexivity].
       apply dec_eqb_zero in Hz. congruence.
     + destruct (dec_cmp _ _); exact I.
+  - apply ok_weaken. apply pow_body_ok.
 Qed.
 
-(* every operator except / is free of panics of any class: Multiply checks the exponent sum itself *)
-Lemma eval_binop_no_panic : forall op x y, op <> ODiv -> ok false (eval_binop op x y).
+(* every operator except / is free of panics of any class: Multiply and Exponent check the exponent themselves *)
+Lemma eval_binop_no_panic : forall fp op x y, op <> ODiv -> ok false (eval_binop fp op x y).
 Proof.
-  intros op x y H2. destruct op; try contradiction; simpl; unfold textual_binary, numerical_binary, cmp_is;
+  intros fp op x y H2. destruct op; try contradiction; simpl; unfold textual_binary, numerical_binary, cmp_is;
     try (destruct (to_text x); [|exact I]; destruct (to_text y); exact I);
     (destruct (to_number x) as [n1|]; [|exact I]; destruct (to_number y) as [n2|]; [|exact I]); try exact I.
-  destruct (exponent_out_of_range (dexp n1 + dexp n2)) eqn:E; [exact I|].
-  unfold exponent_out_of_range, max_number_exponent in E. apply orb_false_iff in E as [E1 E2].
-  apply Z.ltb_ge in E1. apply Z.ltb_ge in E2. unfold dec_mul.
-  replace (in_int32 (dexp n1 + dexp n2)) with true; [exact I|].
-  symmetry. unfold in_int32, int32_min, int32_max. apply andb_true_iff. split; apply Z.leb_le; lia.
+  - destruct (exponent_out_of_range (dexp n1 + dexp n2)) eqn:E; [exact I|].
+    apply exponent_in_range in E. unfold dec_mul.
+    replace (in_int32 (dexp n1 + dexp n2)) with true; [exact I|].
+    symmetry. unfold in_int32, int32_min, int32_max. apply andb_true_iff. split; apply Z.leb_le; lia.
+  - apply pow_body_ok.
 Qed.
 
-Lemma binop_no_panic_statement : forall op x y c, op <> ODiv -> eval_binop op x y <> Panic c.
-Proof. intros op x y c H. apply ok_false_iff. apply eval_binop_no_panic. assumption. Qed.
+Lemma binop_no_panic_statement : forall fp op x y c, op <> ODiv -> eval_binop fp op x y <> Panic c.
+Proof. intros fp op x y c H. apply ok_false_iff. apply eval_binop_no_panic. assumption. Qed.
 
 (* a product whose decimal exponent would leave the limit is an error VALUE *)
-Lemma multiply_out_of_range : forall x y n1 n2, to_number x = Ok n1 -> to_number y = Ok n2 ->
+Lemma multiply_out_of_range : forall fp x y n1 n2, to_number x = Ok n1 -> to_number y = Ok n2 ->
   (dexp n1 + dexp n2 < - max_number_exponent \/ max_number_exponent < dexp n1 + dexp n2) ->
-  eval_binop OMul x y = Ret VErr.
+  eval_binop fp OMul x y = Ret VErr.
 Proof.
-  intros x y n1 n2 H1 H2 Hr. simpl. unfold numerical_binary. rewrite H1, H2.
+  intros fp x y n1 n2 H1 H2 Hr. simpl. unfold numerical_binary. rewrite H1, H2.
   replace (exponent_out_of_range (dexp n1 + dexp n2)) with true; [reflexivity|].
   symmetry. unfold exponent_out_of_range. apply orb_true_iff.
   destruct Hr; [left; apply Z.ltb_lt|right; apply Z.ltb_lt]; assumption.
 Qed.
 
 (* the divide-by-zero guard: an error VALUE *)
-Lemma eval_div_zero : forall x y n1 n2, to_number x = Ok n1 -> to_number y = Ok n2 -> mant n2 = 0 ->
-  eval_binop ODiv x y = Ret VErr.
+Lemma eval_div_zero : forall fp x y n1 n2, to_number x = Ok n1 -> to_number y = Ok n2 -> mant n2 = 0 ->
+  eval_binop fp ODiv x y = Ret VErr.
 Proof.
-  intros x y n1 n2 H1 H2 Hz. simpl. unfold numerical_binary. rewrite H1, H2.
+  intros fp x y n1 n2 H1 H2 Hz. simpl. unfold numerical_binary. rewrite H1, H2.
   apply dec_eqb_zero in Hz. rewrite Hz. reflexivity.
 Qed.
 
@@ -668,10 +795,11 @@ Section Eval.
 Variable wclass : N -> N.
 Variable regex_submatch : text -> text -> option (list text).
 Variable ext_call : N -> list value -> res.
+Variable frac_pow : dec -> dec -> dec.
 Variable lookup_function : text -> option fname.
 Hypothesis ext_ok : forall id args, ok true (ext_call id args).
 
-Notation eval := (eval wclass regex_submatch ext_call lookup_function).
+Notation eval := (eval wclass regex_submatch ext_call frac_pow lookup_function).
 
 Theorem eval_ok : forall ctx e, ok true (eval ctx e).
 Proof.
@@ -693,6 +821,123 @@ Proof.
 Qed.
 
 End Eval.
+
+(* ------------------------------------------------------------------------------------------------ *)
+(* mod, mean, percent and / on numbers whose decimal exponents are within +-10^9: no panic of any class.
+   (Evaluation only produces exponents within max(100000, length of a text): not proved here.) *)
+
+Definition exp_ok (d : dec) : Prop := - 1000000000 <= dexp d <= 1000000000.
+Definition arg_exp_ok (v : value) : Prop := forall d, to_number v = Ok d -> exp_ok d.
+
+Lemma dec_quorem_some : forall x y p, mant y <> 0 -> in_int32 (dexp x - dexp y + p) = true ->
+  exists qr, dec_quorem x y p = inr qr.
+Proof.
+  intros x y p Hy He. unfold dec_quorem.
+  replace (mant y =? 0) with false by (symmetry; apply Z.eqb_neq; assumption).
+  replace (dexp x - dexp y - - p) with (dexp x - dexp y + p) by lia. rewrite He. cbn [negb]. eauto.
+Qed.
+
+Lemma in_int32_of_bounds : forall e, - 2147483648 <= e <= 2147483647 -> in_int32 e = true.
+Proof. intros e H. unfold in_int32, int32_min, int32_max. apply andb_true_iff. split; apply Z.leb_le; lia. Qed.
+
+(* the exponent-overflow panic needs two exponents about 2^31 apart *)
+Lemma quorem_exponent_panic_needs_huge_exponents : forall x y p,
+  dec_quorem x y p = inl PExponent -> 2147483647 - Z.abs p <= Z.abs (dexp x) + Z.abs (dexp y).
+Proof.
+  intros x y p. unfold dec_quorem. destruct (mant y =? 0); [discriminate|].
+  destruct (in_int32 (dexp x - dexp y - - p)) eqn:E; [discriminate|]. intros _.
+  unfold in_int32, int32_min, int32_max in E. apply andb_false_iff in E as [E|E];
+    [apply Z.leb_gt in E|apply Z.leb_gt in E]; lia.
+Qed.
+
+Lemma mod_body_full : forall x y, exp_ok x -> exp_ok y -> ok false (mod_body x y).
+Proof.
+  intros x y Hx Hy. unfold mod_body, exp_ok in *. destruct (dec_eqb y (Dec 0 0)) eqn:E; [exact I|].
+  assert (Hz : mant y <> 0) by (intros H; apply dec_eqb_zero in H; congruence).
+  unfold dec_mod. destruct (dec_quorem_some x y 0 Hz) as [[q r] ->]; [apply in_int32_of_bounds; lia|exact I].
+Qed.
+
+Lemma sum_numbers_exp : forall args acc sum, Forall arg_exp_ok args -> exp_ok acc ->
+  sum_numbers args acc = Ok sum -> exp_ok sum.
+Proof.
+  induction args as [|v r IH]; intros acc sum HF Ha H; simpl in H.
+  - injection H as <-. assumption.
+  - destruct (to_number v) as [n|] eqn:En; [|discriminate].
+    apply (IH (dec_add acc n)); [inversion HF; assumption| |assumption].
+    inversion HF as [|? ? Hv _]; subst. specialize (Hv n En). unfold exp_ok, dec_add in *. cbn [dexp]. lia.
+Qed.
+
+Lemma mean_body_full : forall args, (1 <= length args)%nat -> Forall arg_exp_ok args -> ok false (mean_body args).
+Proof.
+  intros args Hl HF. unfold mean_body. destruct (sum_numbers args decimal_zero) as [sum|] eqn:Es; [|exact I].
+  assert (Hs : exp_ok sum) by (eapply sum_numbers_exp; eauto; unfold exp_ok; simpl; lia).
+  unfold dec_div. destruct (dec_div_round_some sum (dec_of_Z (zlen args)) division_precision) as [q ->]; [| |exact I].
+  - simpl. unfold zlen. lia.
+  - unfold exp_ok, division_precision in *. simpl. apply in_int32_of_bounds. lia.
+Qed.
+
+Lemma percent_body_full : forall d, exp_ok d -> ok false (percent_body d).
+Proof.
+  intros d Hd. unfold percent_body, dec_mul, exp_ok in *. cbn [dexp].
+  rewrite in_int32_of_bounds by lia. exact I.
+Qed.
+
+Lemma divide_full : forall fp x y, arg_exp_ok x -> arg_exp_ok y -> ok false (eval_binop fp ODiv x y).
+Proof.
+  intros fp x y Hx Hy. simpl. unfold numerical_binary.
+  destruct (to_number x) as [n1|] eqn:E1; [|exact I]. destruct (to_number y) as [n2|] eqn:E2; [|exact I].
+  specialize (Hx n1 E1). specialize (Hy n2 E2). unfold exp_ok in *.
+  destruct (dec_eqb n2 (Dec 0 0)) eqn:E; [exact I|].
+  assert (Hz : mant n2 <> 0) by (intros H; apply dec_eqb_zero in H; congruence).
+  unfold dec_div. destruct (dec_div_round_some n1 n2 division_precision Hz) as [q ->]; [|exact I].
+  unfold division_precision. apply in_int32_of_bounds. lia.
+Qed.
+
+Section FullCalls.
+
+Variable wclass : N -> N.
+Variable regex_submatch : text -> text -> option (list text).
+Variable ext_call : N -> list value -> res.
+Notation call_function := (call_function wclass regex_submatch ext_call).
+
+Lemma mod_full : forall args c, Forall arg_exp_ok args -> call_function FMod args <> Panic c.
+Proof.
+  intros args c HF. apply ok_false_iff. unfold ExEval.call_function. rewrite call_not_foreach by discriminate.
+  unfold call_simple, two_number_function, num_args. apply min_max_args_ok_at. intros [H1 [H2|H2]]; [lia|].
+  destruct args as [|v0 [|v1 [|v2 r]]]; simpl in *; try lia. unfold with_arg. simpl.
+  destruct (to_number v0) as [n1|] eqn:E1; [|exact I]. destruct (to_number v1) as [n2|] eqn:E2; [|exact I].
+  inversion HF as [|? ? H0 HF']; subst. inversion HF' as [|? ? H1' _]; subst.
+  apply mod_body_full; [apply H0|apply H1']; assumption.
+Qed.
+
+Lemma mean_full : forall args c, Forall arg_exp_ok args -> call_function FMean args <> Panic c.
+Proof.
+  intros args c HF. apply ok_false_iff. unfold ExEval.call_function. rewrite call_not_foreach by discriminate.
+  unfold call_simple, min_args. apply min_max_args_ok_at. intros [H1 _]. apply mean_body_full; assumption.
+Qed.
+
+Lemma percent_full : forall args c, Forall arg_exp_ok args -> call_function FPercent args <> Panic c.
+Proof.
+  intros args c HF. apply ok_false_iff. unfold ExEval.call_function. rewrite call_not_foreach by discriminate.
+  unfold call_simple, one_number_function, num_args. apply min_max_args_ok_at. intros [H1 [H2|H2]]; [lia|].
+  destruct args as [|v0 [|v1 r]]; simpl in *; try lia. unfold with_arg. simpl.
+  destruct (to_number v0) as [n1|] eqn:E1; [|exact I].
+  inversion HF as [|? ? H0 _]; subst. apply percent_body_full. apply H0. assumption.
+Qed.
+
+End FullCalls.
+
+Lemma divide_full_statement : forall fp x y c, arg_exp_ok x -> arg_exp_ok y -> eval_binop fp ODiv x y <> Panic c.
+Proof. intros fp x y c Hx Hy. apply ok_false_iff. apply divide_full; assumption. Qed.
+
+(* the hypothesis is satisfiable: ordinary numbers and numeric texts *)
+Example arg_exp_ok_satisfiable : Forall arg_exp_ok [VNum (Dec 15 (-1)); VNil; VText [49%N; 46%N; 53%N]].
+Proof.
+  apply Forall_cons; [|apply Forall_cons; [|apply Forall_cons; [|apply Forall_nil]]]; intros d H; unfold exp_ok.
+  - injection H as <-. simpl. lia.
+  - discriminate.
+  - vm_compute in H. injection H as <-. simpl. lia.
+Qed.
 
 (* ------------------------------------------------------------------------------------------------ *)
 (* the int32 range check of ToInteger, with the int64 wrap of IntPart *)
@@ -874,6 +1119,38 @@ Lemma regex_match_no_panic : forall args c, call_function FRegexMatch args <> Pa
 Proof. intros. apply builtin_no_panic. reflexivity. Qed.
 Lemma has_group_no_panic : forall args c, call_function FHasGroup args <> Panic c.
 Proof. intros. apply builtin_no_panic. reflexivity. Qed.
+Lemma text_no_panic : forall args c, call_function FText args <> Panic c.
+Proof. intros. apply builtin_no_panic. reflexivity. Qed.
+Lemma number_no_panic : forall args c, call_function FNumber args <> Panic c.
+Proof. intros. apply builtin_no_panic. reflexivity. Qed.
+Lemma boolean_no_panic : forall args c, call_function FBoolean args <> Panic c.
+Proof. intros. apply builtin_no_panic. reflexivity. Qed.
+Lemma and_no_panic : forall args c, call_function FAnd args <> Panic c.
+Proof. intros. apply builtin_no_panic. reflexivity. Qed.
+Lemma or_no_panic : forall args c, call_function FOr args <> Panic c.
+Proof. intros. apply builtin_no_panic. reflexivity. Qed.
+Lemma if_no_panic : forall args c, call_function FIf args <> Panic c.
+Proof. intros. apply builtin_no_panic. reflexivity. Qed.
+Lemma abs_no_panic : forall args c, call_function FAbs args <> Panic c.
+Proof. intros. apply builtin_no_panic. reflexivity. Qed.
+Lemma count_no_panic : forall args c, call_function FCount args <> Panic c.
+Proof. intros. apply builtin_no_panic. reflexivity. Qed.
+Lemma default_no_panic : forall args c, call_function FDefault args <> Panic c.
+Proof. intros. apply builtin_no_panic. reflexivity. Qed.
+Lemma join_no_panic : forall args c, call_function FJoin args <> Panic c.
+Proof. intros. apply builtin_no_panic. reflexivity. Qed.
+Lemma reverse_no_panic : forall args c, call_function FReverse args <> Panic c.
+Proof. intros. apply builtin_no_panic. reflexivity. Qed.
+Lemma sum_no_panic : forall args c, call_function FSum args <> Panic c.
+Proof. intros. apply builtin_no_panic. reflexivity. Qed.
+Lemma concat_no_panic : forall args c, call_function FConcat args <> Panic c.
+Proof. intros. apply builtin_no_panic. reflexivity. Qed.
+Lemma is_error_no_panic : forall args c, call_function FIsError args <> Panic c.
+Proof. intros. apply builtin_no_panic. reflexivity. Qed.
+Lemma text_length_no_panic : forall args c, call_function FTextLength args <> Panic c.
+Proof. intros. apply builtin_no_panic. reflexivity. Qed.
+Lemma text_compare_no_panic : forall args c, call_function FTextCompare args <> Panic c.
+Proof. intros. apply builtin_no_panic. reflexivity. Qed.
 Lemma mod_exponent_only : forall args c, call_function FMod args = Panic c -> c = PExponent.
 Proof. intros args c. apply builtin_exponent_only; [discriminate|intros id; discriminate]. Qed.
 Lemma mean_exponent_only : forall args c, call_function FMean args = Panic c -> c = PExponent.
@@ -907,11 +1184,11 @@ Proof. intros Hext f args. apply (proj2 (proj1 (ok_true_iff _) (call_function_ok
 Lemma call_function_fuel : ext_well_behaved -> forall f args, call_function f args <> NoFuel.
 Proof. intros Hext f args. apply (proj1 (proj1 (ok_true_iff _) (call_function_ok Hext f args))). Qed.
 
-Lemma eval_statement : forall lookup_function, ext_well_behaved ->
-  forall ctx e, eval wclass regex_submatch ext_call lookup_function ctx e <> NoFuel /\
-                forall c, eval wclass regex_submatch ext_call lookup_function ctx e = Panic c -> c = PExponent.
+Lemma eval_statement : forall frac_pow lookup_function, ext_well_behaved ->
+  forall ctx e, eval wclass regex_submatch ext_call frac_pow lookup_function ctx e <> NoFuel /\
+                forall c, eval wclass regex_submatch ext_call frac_pow lookup_function ctx e = Panic c -> c = PExponent.
 Proof.
-  intros lf Hext ctx e. apply ok_true_iff. apply eval_ok. intros id a. apply ok_true_iff. apply Hext.
+  intros fp lf Hext ctx e. apply ok_true_iff. apply eval_ok. intros id a. apply ok_true_iff. apply Hext.
 Qed.
 
 (* a rejected argument count is an error value, for every wrapper-checked registration *)
@@ -935,6 +1212,6 @@ Proof. apply (numbers_sized_numbers [Dec 15 (-1); Dec 100 0]). Qed.
 (* the exponent class is still reachable in the MODEL: Decimal.QuoRem on two numbers whose exponents are more
    than 2^31 apart.  No evaluation produces such numbers since multiplication and exponentiation limit the
    exponent to +-100000 (that invariant is not proved here); a caller of operators.Divide can construct them. *)
-Example quorem_exponent_panics :
-  eval_binop ODiv (VNum (Dec 1 2147483647)) (VNum (Dec 1 (-100))) = Panic PExponent.
-Proof. vm_compute. reflexivity. Qed.
+Example quorem_exponent_panics : forall fp,
+  eval_binop fp ODiv (VNum (Dec 1 2147483647)) (VNum (Dec 1 (-100))) = Panic PExponent.
+Proof. intros fp. vm_compute. reflexivity. Qed.
